@@ -314,6 +314,11 @@ func fuzzSeeds() [][]byte {
 			break
 		}
 	}
+	// halftone regions over pattern dictionaries of 1, 3, 4, 5 and 6 patterns
+	for i, np := range []int{1, 3, 3, 4, 5, 6} {
+		body, _, _ := halftoneSpec{numPats: np, patSize: 2 + 2*(i%2), gw: 5, gh: 4, mmr: i != 2, dictMMR: i%2 == 0, seed: uint64(i)}.build()
+		add(specOf([]string{"JBIG2Decode"}, nil, body, nil, 0x40))
+	}
 	for _, s := range jb2Seeds {
 		var ps []gen.O
 		if len(s.globals) > 0 {
